@@ -6,6 +6,8 @@ EXTENDS ObjectModel, TraceIO
 CONSTANTS MaxHist,       \* generation: stop extending histories beyond this length
           BadArgs        \* include null pointers, one-past-the-end indices and unknown names in the alphabet
 
+SeqOfSet(S) == CHOOSE q \in [1..Cardinality(S) -> S] : {q[i] : i \in DOMAIN q} = S
+NamelessOnes == {x \in DOMAIN NameOf : NameOf[x] = ""}
 Names == {NameOf[x] : x \in DOMAIN NameOf} \cup (IF BadArgs THEN {"zz"} ELSE {})
 Top(k) == IF BadArgs THEN Cardinality(OfKind(k)) ELSE Cardinality(OfKind(k)) - 1
 OrNone(S) == IF BadArgs THEN S \cup {None} ELSE S
@@ -26,6 +28,7 @@ Cmds ==
     \cup {[e |-> op, x |-> v, y |-> w] : op \in {"addEquiv", "removeEquiv"}, v \in OrNone(Vars), w \in OrNone(Vars)}
     \cup {[e |-> "removeAllEquiv", x |-> v] : v \in Vars}
     \cup {[e |-> "release", x |-> x] : x \in Entities}
+    \cup (IF NamelessOnes = {} THEN {} ELSE {[e |-> "clean", p |-> m] : m \in Models})
 Results == {Yes, No} \cup Entities \cup {None}
 
 VARIABLES hist, last
@@ -38,7 +41,7 @@ MCNext == \E c \in Cmds : Enabled(c) /\
              /\ Apply(c)
              /\ last' = c
              /\ hist' = Append(hist, c)
-             /\ ("OUT" \in DOMAIN IOEnv /\ Len(hist) <= MaxHist) => EmitScenario([cmds |-> hist'])
+             /\ ("OUT" \in DOMAIN IOEnv /\ Len(hist) <= MaxHist) => EmitScenario(IF NamelessOnes = {} THEN [cmds |-> hist'] ELSE [cmds |-> hist', nameless |-> SeqOfSet(NamelessOnes)])
 MCSpec == MCInit /\ [][MCNext]_<<vars, ret, hist, last>>
 StateView == <<vars>>
 
@@ -50,5 +53,7 @@ NameOfB == [x \in {"c1", "c2", "v1", "v2", "v3"} |-> IF x \in {"c2", "v3"} THEN 
 NameOfBq == [x \in {"c1", "c2", "v1", "v2"} |-> IF x = "c2" THEN "b" ELSE "a"]
 NameOfC == [x \in {"u1", "u2", "u3"} |-> IF x = "u3" THEN "b" ELSE "a"]
 NameOfD == [x \in {"c1", "c2"} |-> IF x = "c2" THEN "b" ELSE "a"]
+NameOfF1 == [x \in {"c1", "c2", "c3"} |-> IF x \in {"c2", "c3"} THEN "" ELSE "a"]
+NameOfF2 == [x \in {"c1", "c2", "v1", "u2"} |-> IF x \in {"c2", "u2"} THEN "" ELSE "a"]
 NameOfAll == [x \in {"c1", "c2", "c3", "v1", "v2", "v3", "u1", "u2", "u3"} |-> IF x \in {"c3", "v3", "u3"} THEN "b" ELSE "a"]
 =============================================================================
